@@ -121,7 +121,7 @@ theorem wigm_seats_filled_fixed (p : Nat) (o : WigmOpts) (hz : o.batchZero = fal
     (hinit : Init (fixedArith p) s0) (hfresh : ∀ c ∈ s0.cands, c.st ≠ .elected) (henough : s0.seats ≤ nHop s0)
     (hround : s0.round = 0) :
     ∃ t, wigmCount (fixedArith p) o s0 = some t
-      ∧ RecMon (snaps t.acts) ∧ Ext s0 t ∧ (t.crash = none → nEl t = t.seats ∧ nHop t = 0) := by
+      ∧ Mon t ∧ Ext s0 t ∧ (t.crash = none → nEl t = t.seats ∧ nHop t = 0) := by
   have h0 := wigm_start p o s0 hinit hfresh henough hround
   obtain ⟨t, ht⟩ := wigmCount_terminates' _ (fixed_lawful p) o hz (fun _ => rfl) s0 h0
   exact ⟨t, ht, wigm_result _ (fixed_lawful p) o hz (fun _ => rfl) s0 t h0 ht⟩
@@ -143,7 +143,7 @@ theorem mpls_start (p : Nat) (s0 : St Int) (hinit : Init (fixedArith p) s0) (hfr
 theorem mpls_seats_filled_fixed (p : Nat) (s0 : St Int) (hinit : Init (fixedArith p) s0)
     (hfresh : ∀ c ∈ s0.cands, c.st ≠ .elected) (henough : s0.seats ≤ nHop s0) (hround : s0.round = 0) (hnu : NoUnd s0) :
     ∃ t, mplsCount (fixedArith p) s0 = some t
-      ∧ RecMon (snaps t.acts) ∧ Ext s0 t ∧ (t.crash = none → nEl t = t.seats ∧ nHop t = 0) := by
+      ∧ Mon t ∧ Ext s0 t ∧ (t.crash = none → nEl t = t.seats ∧ nHop t = 0) := by
   have h0 := mpls_start p s0 hinit hfresh henough hround
   obtain ⟨t, ht⟩ := mplsCount_terminates _ (fixed_lawful p) rfl s0 h0 hnu
   exact ⟨t, ht, mpls_result _ (fixed_lawful p) rfl s0 t h0 hnu ht⟩
